@@ -242,6 +242,7 @@ func runC13(w *World, r *Report) {
 	// ---- rule 2: ambient inputs ----
 	const ruleAmb = "C13/ambient"
 	nCalls := 0
+	ambientSeen, ambientWhere := map[string]string{}, map[string]string{}
 	for _, fn := range subjects {
 		found := map[string]string{}
 		forEachInstr(fn, func(b *ssa.BasicBlock, ins ssa.Instruction) {
@@ -257,7 +258,44 @@ func runC13(w *World, r *Report) {
 			name := f.String()
 			for _, a := range ambientCalls {
 				if name == a || (strings.HasSuffix(a, ".") && strings.HasPrefix(name, a)) {
-					found[name] = w.instrPos(ins)
+					// what is taken from the ambient value (time.Now().Year()): part of the finding's identity, so that another use of the
+					// same source is another finding
+					uses := map[string]bool{}
+					if v, ok := ins.(ssa.Value); ok && v.Referrers() != nil {
+						for _, ref := range *v.Referrers() {
+							if c2, ok := ref.(ssa.CallInstruction); ok {
+								if f2 := c2.Common().StaticCallee(); f2 != nil {
+									uses["."+f2.Name()] = true
+								}
+							}
+							if st, ok := ref.(*ssa.Store); ok {
+								// a spilled struct value (time.Time): the methods called on the cell
+								if al, ok := st.Addr.(*ssa.Alloc); ok && al.Referrers() != nil {
+									for _, r2 := range *al.Referrers() {
+										if c2, ok := r2.(ssa.CallInstruction); ok {
+											if f2 := c2.Common().StaticCallee(); f2 != nil {
+												uses["."+f2.Name()] = true
+											}
+										}
+										if ld, ok := r2.(*ssa.UnOp); ok && ld.Referrers() != nil {
+											for _, r3 := range *ld.Referrers() {
+												if c3, ok := r3.(ssa.CallInstruction); ok {
+													if f3 := c3.Common().StaticCallee(); f3 != nil {
+														uses["."+f3.Name()] = true
+													}
+												}
+											}
+										}
+									}
+								}
+							}
+						}
+					}
+					k := name
+					if len(uses) > 0 {
+						k += "()" + strings.Join(sortedBoolKeys(uses), ",")
+					}
+					found[k] = w.instrPos(ins)
 				}
 			}
 			if why := libraryStateWriter(w, f, 0, map[*ssa.Function]bool{}); why != "" {
@@ -267,12 +305,27 @@ func runC13(w *World, r *Report) {
 				found["fmt address formatting: "+bad] = w.instrPos(ins)
 			}
 		})
+		// findings are keyed by who owns the code (the generator type, or the package for free functions), not by the function the call
+		// happens to sit in: moving it into a helper is not a new finding
+		owner := recvNamedCore(fn)
+		if owner == "" && fn.Pkg != nil {
+			owner = "package " + fn.Pkg.Pkg.Name()
+		}
 		for _, name := range sortedKeys(found) {
-			r.fail(ruleAmb, fmt.Sprintf("%s calls %s", fnKey(fn), name), found[name], "ambient input reachable from cmd.Compile: output may differ between runs")
+			k := owner + " calls " + name
+			if ambientSeen[k] == "" {
+				ambientSeen[k] = found[name]
+				ambientWhere[k] = fnKey(fn)
+			} else {
+				ambientWhere[k] += ", " + fnKey(fn)
+			}
 		}
 		if len(found) == 0 {
 			r.pass(ruleAmb, fnKey(fn), w.pos(fn.Pos()), "no ambient-input call")
 		}
+	}
+	for _, k := range sortedKeys(ambientSeen) {
+		r.fail(ruleAmb, k, ambientSeen[k], "ambient input reachable from cmd.Compile (in "+ambientWhere[k]+"): output may differ between runs")
 	}
 	r.note("call sites scanned for ambient inputs: %d", nCalls)
 
@@ -415,9 +468,88 @@ func isSortCall(c ssa.CallInstruction) bool {
 }
 
 func classifyMapLoop(w *World, fn *ssa.Function, lp rangeLoop, wsum map[*ssa.Function]map[int]bool, stateful map[*ssa.Function]string) []string {
+	return classifyLoopBody(w, fn, lp, lp.Next.Block(), iterTaint(fn, lp.Next), wsum, stateful, 0)
+}
+
+// orderFreeConsumers: the slice phi (accumulated in map order inside lp) is consumed, outside lp, only by len() and by loops over
+// its elements whose bodies have none but commutative effects - then the order it was filled in cannot show.
+func orderFreeConsumers(w *World, fn *ssa.Function, phi *ssa.Phi, lp rangeLoop, wsum map[*ssa.Function]map[int]bool, stateful map[*ssa.Function]string, depth int) bool {
+	if depth > 1 || phi.Referrers() == nil {
+		return false
+	}
+	any := false
+	for _, ref := range *phi.Referrers() {
+		if lp.Blocks[ref.Block()] {
+			continue
+		}
+		switch x := ref.(type) {
+		case *ssa.DebugRef:
+		case *ssa.Call:
+			if bi, ok := x.Call.Value.(*ssa.Builtin); !ok || (bi.Name() != "len" && bi.Name() != "cap") {
+				return false
+			}
+		case *ssa.IndexAddr:
+			var cnt *ssa.Phi
+			switch ix := x.Index.(type) {
+			case *ssa.BinOp:
+				cnt, _ = ix.X.(*ssa.Phi)
+			case *ssa.Phi:
+				cnt = ix
+			}
+			if cnt == nil {
+				return false
+			}
+			blocks := naturalLoop(cnt.Block())
+			if len(blocks) < 2 || !blocks[x.Block()] {
+				return false
+			}
+			// taint: everything computed from the element
+			seeds := map[ssa.Value]bool{x: true}
+			t := iterTaintFrom(fn, seeds)
+			lp2 := rangeLoop{Blocks: blocks}
+			if bad := classifyLoopBody(w, fn, lp2, cnt.Block(), t, wsum, stateful, depth+1); len(bad) > 0 {
+				return false
+			}
+			any = true
+		default:
+			return false
+		}
+	}
+	return any
+}
+
+func iterTaintFrom(fn *ssa.Function, seeds map[ssa.Value]bool) map[ssa.Value]bool {
+	t := map[ssa.Value]bool{}
+	for k := range seeds {
+		t[k] = true
+	}
+	for changed := true; changed; {
+		changed = false
+		forEachInstr(fn, func(b *ssa.BasicBlock, ins ssa.Instruction) {
+			if st, isSt := ins.(*ssa.Store); isSt && t[st.Val] {
+				if al, isAl := addrRoot(st.Addr).(*ssa.Alloc); isAl && !t[al] {
+					t[al] = true
+					changed = true
+				}
+			}
+			v, ok := ins.(ssa.Value)
+			if !ok || t[v] {
+				return
+			}
+			for _, op := range ins.Operands(nil) {
+				if *op != nil && t[*op] {
+					t[v] = true
+					changed = true
+					return
+				}
+			}
+		})
+	}
+	return t
+}
+
+func classifyLoopBody(w *World, fn *ssa.Function, lp rangeLoop, header *ssa.BasicBlock, taint map[ssa.Value]bool, wsum map[*ssa.Function]map[int]bool, stateful map[*ssa.Function]string, depth int) []string {
 	var bad []string
-	taint := iterTaint(fn, lp.Next)
-	header := lp.Next.Block()
 	for _, b := range fn.Blocks {
 		if !lp.Blocks[b] {
 			continue
@@ -442,7 +574,7 @@ func classifyMapLoop(w *World, fn *ssa.Function, lp rangeLoop, wsum map[*ssa.Fun
 					bad = append(bad, "string accumulated across iterations at "+w.instrPos(firstInLoopDef(x, lp)))
 				}
 				if _, ok := x.Type().Underlying().(*types.Slice); ok {
-					if !sortedBeforeUse(x, lp) {
+					if !sortedBeforeUse(x, lp) && !orderFreeConsumers(w, fn, x, lp, wsum, stateful, depth) {
 						bad = append(bad, "slice appended across iterations and used without sorting ("+x.Name()+")")
 					}
 				}
